@@ -592,4 +592,39 @@ pub mod vx_export {
         }
         Ok(bad)
     }
+
+    /// C02 / C03 (BOUNDED end-to-end cross-check): `n` labels are published in two batches (every label gets two versions), with the
+    /// given insertion parallelism, on whatever runtime the caller drives this future with; afterwards EVERY label's lookup answer and
+    /// key-history answers (Complete, MostRecent(1), MostRecent(5)) must verify against the epoch hash returned with them and yield the
+    /// latest value / all versions newest first. Returns the list of what went wrong.
+    pub async fn c0203_all_answers<TC: Configuration>(n: usize, parallel: bool) -> Result<Vec<String>, AkdError> {
+        let par = if parallel { AzksParallelismConfig::default() } else { AzksParallelismConfig::disabled() };
+        let dir = Directory::<TC, _, _>::new(StorageManager::new_no_cache(AsyncInMemoryDatabase::new()), HardCodedAkdVRF {}, par).await?;
+        let name = |i: usize| AkdLabel(format!("user-{i}").into_bytes());
+        dir.publish((0..n).map(|i| (name(i), AkdValue(format!("v1-{i}").into_bytes()))).collect()).await?;
+        dir.publish((0..n).map(|i| (name(i), AkdValue(format!("v2-{i}").into_bytes()))).collect()).await?;
+        let pk = dir.get_public_key().await?;
+        let mut bad = vec![];
+        match dir.lookup(AkdLabel::from("never-published")).await { Ok(_) => bad.push("lookup of a label that was never published produced a proof".to_string()), Err(_) => {} }
+        for i in 0..n {
+            let want2 = AkdValue(format!("v2-{i}").into_bytes());
+            match dir.lookup(name(i)).await {
+                Ok((proof, eh)) => match lookup_verify::<TC>(pk.as_bytes(), eh.hash(), eh.epoch(), name(i), proof) {
+                    Ok(r) => if r.value != want2 || r.version != 2 || r.epoch != 2 { bad.push(format!("lookup(user-{i}) verified to (version {}, epoch {}) instead of the latest", r.version, r.epoch)) },
+                    Err(e) => bad.push(format!("lookup(user-{i}) does not verify: {e}")),
+                },
+                Err(e) => bad.push(format!("lookup(user-{i}) failed: {e}")),
+            }
+            for (params, want_n) in [(HistoryParams::Complete, 2usize), (HistoryParams::MostRecent(1), 1), (HistoryParams::MostRecent(5), 2)] {
+                match dir.key_history(&name(i), params).await {
+                    Ok((proof, eh)) => match key_history_verify::<TC>(pk.as_bytes(), eh.hash(), eh.epoch(), name(i), proof, HistoryVerificationParams::Default { history_params: params }) {
+                        Ok(rs) => if rs.len() != want_n || rs[0].version != 2 || rs[0].value != want2 { bad.push(format!("key_history(user-{i}, {params:?}) verified to {} entries starting at version {}", rs.len(), rs.first().map(|r| r.version).unwrap_or(0))) },
+                        Err(e) => bad.push(format!("key_history(user-{i}, {params:?}) does not verify: {e}")),
+                    },
+                    Err(e) => bad.push(format!("key_history(user-{i}, {params:?}) failed: {e}")),
+                }
+            }
+        }
+        Ok(bad)
+    }
 }
